@@ -98,6 +98,22 @@ def run(ctx):
             ctx.check('C09.X1', r is None, load.name, 'read_failed:success-without-truncate', load.where(e),
                       'once read_failed is set, success is reported only after Truncate(path, offset)',
                       witness=None if r is None else {'blocks': r[0]})
+    # a path record whose path is empty once the padding is stripped is malformed (1-3 NUL bytes with a matching
+    # checksum): the node is created only where the stripped length is known to be positive
+    for e in load.calls('State::GetNode'):
+        def positive(a):
+            a = strip(a)
+            if not (isinstance(a, dict) and a.get('k') == 'bin' and mentions_var(a, 'path_size')):
+                return None
+            if a['op'] == '==' and const_value(a['r']) == 0 and is_var('path_size')(a['l']):
+                return False            # wanted polarity of `path_size == 0`
+            if a['op'] == '<' and const_value(a['l']) == 0 and is_var('path_size')(a['r']):
+                return True             # wanted polarity of `0 < path_size`
+            return None
+        facts = load.facts_at(e)
+        ok = any(positive(atom) is not None and positive(atom) == pol for k, (pol, atom) in facts.items())
+        ctx.check('C09.X1', ok, load.name, 'path-record:empty-path-accepted', load.where(e),
+                  'a node is created for a path record only when the path left after stripping the padding is not empty')
     ctx.floor('C09.X1', 8)
 
     # ---- O3: truncate offset discipline --------------------------------------------------------
